@@ -83,7 +83,7 @@ structure Req where
   a : MatRef
   /-- `M=` of `eigsh/eigs`, `b=` of `eigh/eig` -/
   b : MatRef
-  k : Option Nat
+  k : Option Int
   which : Option String
   sigma : Option Int
   mode : Option String
@@ -165,33 +165,40 @@ def negInvVals (vals : List K) : List (Option K) := vals.map fun μ => if μ = 0
 def fullRef (nm : MatName) : MatRef := ⟨nm, false, none, false⟩
 def subRef (nm : MatName) (idx : List Nat) (dense : Bool) : MatRef := ⟨nm, false, some idx, dense⟩
 
-def eigshReq (k : Nat) (a b : MatRef) : Req := ⟨.eigsh, a, b, some k, some "SM", some 1, some "cayley"⟩
+def eigshReq (k : Int) (a b : MatRef) : Req := ⟨.eigsh, a, b, some k, some "SM", some 1, some "cayley"⟩
 
-/-- `lb(K, KG, sparse_solver, num_eigvalues)`.
+/-- `k = min(num_eigvalues, n-2)` (`analysis.lb`, `kMin = true`) or `k = num_eigvalues` (`Panel.lb`) -/
+def lbK (n num : Nat) (kMin : Bool) : Int := if kMin then min (num : Int) ((n : Int) - 2) else (num : Int)
+
+/-- the re-capped request after `remove_null_cols`: `k = min(k, N-1)` for `N` active amplitudes -/
+def lbK2 (n num : Nat) (kMin : Bool) (nred : Nat) : Int := min (lbK n num kMin) ((nred : Int) - 1)
+
+/-- `lb(K, KG, sparse_solver, num_eigvalues)` (as of /repo commits 3692045, d870371).
 `kMin = true`: `analysis.lb` (`k = min(num_eigvalues, n-2)`); `kMin = false`: `Panel.lb` (`k = num_eigvalues`).
 `first`, `second`: results of the first and (sparse path only, after an exception of the first) second solver
-call; `none` = the call raised. -/
+call; `none` = the call raised.  The mode array is allocated with the number of columns delivered
+(`zeros((n, peigvecs.shape[1]))`), and the second request is capped by the reduced size. -/
 def lb (n num : Nat) (kMin sparse : Bool) (Kc : Coo K) (first second : Option (Out K K)) :
     List Req × Except Err (Out (Option K) K) :=
-  let k := if kMin then min num (n - 2) else num
   if sparse then
-    let r1 := eigshReq k (fullRef .KG) (fullRef .K)
+    let r1 := eigshReq (lbK n num kMin) (fullRef .KG) (fullRef .K)
     match first with
     | some o => ([r1], .ok ⟨negInvVals o.vals, o.vecs⟩)
     | none =>
       let used := usedCols n Kc
-      let r2 := eigshReq k (subRef .KG used false) (subRef .K used false)
+      let r2 := eigshReq (lbK2 n num kMin used.length) (subRef .KG used false) (subRef .K used false)
       match second with
       | none => ([r1, r2], .error (.solverRaised 2))
       | some o =>
-        ([r1, r2], (assignRows n num used o.vecs).map fun e => ⟨negInvVals o.vals, e⟩)
+        ([r1, r2], (assignRows n o.vecs.ncols used o.vecs).map fun e => ⟨negInvVals o.vals, e⟩)
   else
     let used := usedCols n Kc
     let r1 : Req := ⟨.eigh, subRef .KG used true, subRef .K used true, none, none, none, none⟩
     match first with
     | none => ([r1], .error (.solverRaised 1))
     | some o =>
-      ([r1], (assignRows n num used (o.vecs.takeCols num)).map fun e => ⟨negInvVals o.vals, e⟩)
+      let v := o.vecs.takeCols num
+      ([r1], (assignRows n v.ncols used v).map fun e => ⟨negInvVals o.vals, e⟩)
 
 end lb
 
@@ -274,19 +281,23 @@ def freqPost (take? : Option (List Nat)) (s : Out F F) : Except Err (Out F F) :=
   | some take => (reExpand take s.vecs).map fun e' => ⟨s.vals, e'⟩
   | none => .ok s
 
-/-- `freq(K, M, sparse_solver, sort, reduced_dof, num_eigvalues)`; `res` = what `eigs` / `eig` returned
+/-- `k = min(min(num_eigvalues, n-2), N-2)` for `N` active amplitudes (`eigs` needs `k < N-1`) -/
+def freqK (n num nred : Nat) : Int := min (min (num : Int) ((n : Int) - 2)) ((nred : Int) - 2)
+
+/-- `freq(K, M, sparse_solver, sort, reduced_dof, num_eigvalues)` (as of /repo commits 3692045, d870371:
+sparse path allocates `zeros((n, peigvecs.shape[1]))` and re-caps `k` after `remove_null_cols`); `res` = what `eigs` / `eig` returned
 (`none`: it raised); `sqrtV` = `numpy.sqrt` (vectorised); `negInv x = -1./x`. -/
 def freq (n num : Nat) (sparse sort reduced : Bool) (Kc Mc : Coo K)
     (sqrtV : List F → List F) (negInv : F → F) (re im : F → K) (res : Option (Out F F)) :
     List Req × Except Err (Out F F) :=
-  let k := min num (n - 2)
   if sparse then
     let used := usedCols n Kc
-    let r : Req := ⟨.eigs, subRef .K used false, subRef .M used false, some k, some "LM", some (-1), none⟩
+    let r : Req := ⟨.eigs, subRef .K used false, subRef .M used false, some (freqK n num used.length), some "LM",
+      some (-1), none⟩
     match res with
     | none => ([r], .error (.solverRaised 1))
     | some o =>
-      ([r], (assignRows n num used o.vecs).bind fun e => sortOrNot sort re im (sqrtV o.vals) e)
+      ([r], (assignRows n o.vecs.ncols used o.vecs).bind fun e => sortOrNot sort re im (sqrtV o.vals) e)
   else
     let check := checkCols n Mc
     match takeOpt reduced check.length with
